@@ -104,10 +104,13 @@ def long_name(n, tag="k"):
     return body + "z"
 
 
-def schema_c10(rng, idx, kwlens=None):
+def schema_c10(rng, idx, kwlens=None, inverses=None):
     """references, lists, an ANDOR family for complex instances, forward refs and cycles are possible everywhere;
-    kwlens: extra entities whose names have exactly these lengths (keyword length is a size boundary of the scanner)"""
+    kwlens: extra entities whose names have exactly these lengths (keyword length is a size boundary of the scanner);
+    inverses (default: every odd idx): INVERSE attributes (aggregate-valued) on `nd` and `grp` - loadInstance then also loads the
+    candidate referrers lazyRefs inspects (see inv_keywords / expected_loaded); the ANDOR family stays free of them"""
     nm = f"lz{idx}"
+    inverses = (idx % 2 == 1) if inverses is None else inverses
     ents = [
         {"name": "nd", "attrs": [("name", "str", None), ("nxt", "optref", "nd")]},
         {"name": "grp", "attrs": [("lbl", "str", None), ("items", "listref", "nd"), ("k", "int", None)]},
@@ -125,7 +128,87 @@ def schema_c10(rng, idx, kwlens=None):
         ents.append({"name": f"x{j}", "attrs": attrs})
     for n in (kwlens if kwlens is not None else KW_LENGTHS[idx % 4::4]):
         ents.append({"name": long_name(n), "attrs": [("ln", "str", None), ("lr", "optref", "nd"), ("ls", "setref", "nd")]})
+    if inverses:
+        nd, grp = ents[0], ents[1]
+        nd["inverses"] = [("prevs", True, "nd", "nxt"), ("in_grps", True, "grp", "items")]
+        k = 0
+        for e in ents[5:]:
+            # referrers of nd through one attribute; an instance that mentions an nd only through ANOTHER attribute (lr vs ls, a0 vs a1)
+            # is a candidate lazyRefs loads and keeps although it is no referrer
+            refs = [(n_, kd) for (n_, kd, t) in e["attrs"] if t == "nd" and "ref" in kd]
+            if refs and rng.random() < 0.8:
+                nd["inverses"].append((f"by{k}", True, e["name"], rng.choice(refs)[0]))
+                k += 1
+            grefs = [(n_, kd) for (n_, kd, t) in e["attrs"] if t == "grp" and "ref" in kd]
+            if grefs and rng.random() < 0.8:
+                grp.setdefault("inverses", []).append((f"gy{k}", True, e["name"], rng.choice(grefs)[0]))
+                k += 1
     return {"name": nm, "entities": ents}
+
+
+def inv_keywords(s):
+    """{entity: sorted entities whose instances are candidate referrers of an instance of it}: the inverted entities of its inverse
+    attributes (own and inherited), each with all its subtypes - what lazyRefs::checkAnInvAttr collects in edL"""
+    out = {}
+    for e in s["entities"]:
+        c = set()
+        for en in supers(s, e["name"]):
+            for (_, _, over, _) in ent(s, en).get("inverses", []):
+                c |= {f["name"] for f in s["entities"] if is_a(s, f["name"], over)}
+        if c:
+            out[e["name"]] = sorted(c)
+    return out
+
+
+def loaded_class(s, pop, requested):
+    """how the loaded set of a history relates to the forward closure: 'forward closure only' | 'plus referrers' |
+    'plus candidates that are no referrers' (an instance loaded only because its keyword and a mention made it a candidate, although it
+    does not refer through the inverted attribute)"""
+    byid = {x["id"]: x for x in pop}
+    fwd = {x["id"]: [r for r in refs_in_order(x) if r in byid] for x in pop}
+    base = set()
+    for i in requested:
+        if i in byid:
+            base |= {i} | closure(fwd, i)
+    full = expected_loaded(s, pop, requested)
+    if full == base:
+        return "forward closure only"
+    # the same closure with real referrers only
+    seen, todo = set(), [i for i in requested if i in byid]
+    while todo:
+        i = todo.pop()
+        if i in seen:
+            continue
+        seen.add(i)
+        todo += fwd[i]
+        x = byid[i]
+        if len(x["parts"]) == 1:
+            for en in supers(s, x["parts"][0][0]):
+                for (_, _, over, attr) in ent(s, en).get("inverses", []):
+                    todo += [y["id"] for y in pop if len(y["parts"]) == 1 and is_a(s, y["parts"][0][0], over)
+                             and i in attr_refs(s, y, over, attr)]
+    return "plus referrers" if seen == full else "plus candidates that are no referrers"
+
+
+def expected_loaded(s, pop, requested):
+    """what loadInstance leaves loaded after the calls `requested`: the least set that contains the requested instances of the file and
+    is closed under forward references and under `candidate referrer` (a simple instance that mentions a loaded simple instance x and
+    whose entity is among inv_keywords of x's entity) - computed from the population and the schema only"""
+    inv = inv_keywords(s)
+    byid = {x["id"]: x for x in pop}
+    mention = {x["id"]: set(refs_in_order(x)) for x in pop}
+    seen, todo = set(), [i for i in requested if i in byid]
+    while todo:
+        i = todo.pop()
+        if i in seen:
+            continue
+        seen.add(i)
+        x = byid[i]
+        todo += [r for r in mention[i] if r in byid]
+        if len(x["parts"]) == 1:
+            cand_ents = inv.get(x["parts"][0][0], [])
+            todo += [y["id"] for y in pop if len(y["parts"]) == 1 and y["parts"][0][0] in cand_ents and i in mention[y["id"]]]
+    return seen
 
 
 def schema_c11(rng, idx, ninv=None, complex_ref=False, mi=False, deep=False, redecl=False, diamond=False, inh=None):
